@@ -100,6 +100,18 @@ class Context(object):
         if missing:
             raise MachineryFailure('vacuous run %s: actions never taken: %s' % (label, missing))
 
+    def check_ops(self, label, items, required, get=lambda stp: stp['act']['op']):
+        """Vacuity guard on the replayed behaviours themselves: every required operation occurs."""
+        counts = {}
+        for it in items:
+            for stp in (it['steps'] if 'steps' in it else it['plan']):
+                k = get(stp)
+                counts[k] = counts.get(k, 0) + 1
+        self.cov['action_coverage'][label + ' (replayed steps)'] = counts
+        missing = [a for a in required if not counts.get(a)]
+        if missing:
+            raise MachineryFailure('vacuous generation %s: operations never replayed: %s' % (label, missing))
+
     # -- verdicts ---------------------------------------------------------------------------
     def report(self, div):
         """Attribute a divergence to an open known finding or record it as a violation."""
